@@ -2,5 +2,5 @@ CONSTANTS
   MaxParams = 3
   MaxLinks = 2
 SPECIFICATION Spec
-INVARIANTS ChainTheorem EmitCase
+INVARIANTS ChainTheorem RecTheorem EmitCase
 CHECK_DEADLOCK FALSE
